@@ -33,7 +33,7 @@ REL = None
 
 
 def floors(tier):
-    return {"requests": 20000, "repeat_requests_checked": 2000, "fd_grads_compared": 2000, "histories_over_points_one_ulp_apart": 200, "histories_with_transient_faults": 400, "histories_with_user_relative_step": 300, "solver_runs_logged": 60, "solver_restart_legs_logged": 20, "wrapper_answers_checked_inside_solver_runs": 2000,
+    return {"requests": 20000, "repeat_requests_checked": 2000, "fd_grads_compared": 2000, "histories_over_points_one_ulp_apart": 100, "histories_over_points_1e-170_apart": 20, "histories_with_transient_faults": 400, "histories_with_user_relative_step": 300, "solver_runs_logged": 60, "solver_restart_legs_logged": 20, "wrapper_answers_checked_inside_solver_runs": 2000,
             "requests_failing_in_the_user_function": 300, "__nontrivial__": 100}
 
 
@@ -63,15 +63,21 @@ def objective(n):
 K66 = 2.0 ** 66
 
 
-def objective_resolving(n):
+K565 = 2.0 ** 565  # ~1.2e170
+
+
+def objective_resolving(n, K=None):
     """0.5*sum((2^66 x_i)^2): at points of size 2^-66 a difference of one unit in the last place of x changes the value and
     every gradient component (multiplications by powers of two are exact)."""
 
+    K = K66 if K is None else K
+
     def f(x):
-        return 0.5 * np.sum((K66 * x) ** 2)
+        return 0.5 * np.sum((K * x) ** 2)
 
     def g(x):
-        return K66 * (K66 * x)
+        # (two exact scalings by 2^283 for K = 2^565, whose square would overflow)
+        return (K * x) * K66 if K == K66 else ((K * x) * 2.0 ** 283) * 2.0 ** 282
 
     return f, g
 
@@ -98,7 +104,7 @@ class Driver:
         self.out = out
         self.mutate = mutate
         self.lb, self.ub = lb, ub
-        self.fp, self.gp = objective_resolving(n) if resolving else objective(n)
+        self.fp, self.gp = (objective_resolving(n, K565 if resolving == "tiny" else None) if resolving else objective(n))
         self.fail_f, self.fail_g = set(fail_f), set(fail_g)  # indices of the user-function calls that raise (once each)
         self.flog = []  # points received by the user objective during the current request
         self.nf_total = 0
@@ -283,8 +289,15 @@ def alphabet_ulp(n=2):
     return lb, ub, [d0, d1, d2]
 
 
+def alphabet_tiny(n=2):
+    """the origin and two points of size 1e-170: differences whose squares underflow to zero"""
+    lb, ub, _ = alphabet(n)
+    d1 = (1.0 + 0.25 * np.arange(n)) / K565
+    return lb, ub, [np.zeros(n), d1, 2.0 * d1]
+
+
 def run_history(mode, hist, scale_pos, mutate, out, factory=default_factory, n=2, label="", ulp=False, fail_f=(), fail_g=(), rel=REL, eps_abs=EPS_ABS):
-    lb, ub, pts = alphabet_ulp(n) if ulp else alphabet(n)
+    lb, ub, pts = (alphabet_tiny(n) if ulp == "tiny" else alphabet_ulp(n)) if ulp else alphabet(n)
     drv = Driver(mode, n, lb, ub, pts[0], out, factory=factory, mutate=mutate, resolving=ulp, fail_f=fail_f, fail_g=fail_g, rel=rel, eps_abs=eps_abs)
     for k, sym in enumerate(hist):
         if scale_pos is not None:
@@ -559,8 +572,8 @@ def run(spec):
                     if kw["rel"] is not None:
                         out.count("histories_with_user_relative_step")
                 if variant == "ulp":
-                    kw["ulp"] = True  # consecutive request points one / two units in the last place apart
-                    out.count("histories_over_points_one_ulp_apart")
+                    kw["ulp"] = True if ((j // 4) % 2 == 0 or mode != "callable") else "tiny"  # points one / two ulp apart, or (exact gradient only) 0 / 1e-170 / 2e-170
+                    out.count("histories_over_points_one_ulp_apart" if kw["ulp"] is True else "histories_over_points_1e-170_apart")
                 elif variant == "faults":
                     # a few user-function calls fail once (exception), early enough to be followed by further requests
                     kw["fail_f"] = set(int(v) for v in rng.integers(1, max(2, Lr), int(rng.integers(1, 4))))
